@@ -75,20 +75,22 @@ def execute(case) -> tuple[list[str], list[dict]]:
     for raw in case["ops"]:
         op = norm(raw)
         e = op[1]
-        if op[0] == "register":
-            rep = h.register(e)
-            kind = "ok" if rep.success else "refused"
-        elif op[0] == "disconnect":
-            h.disconnect(e)
-            kind = "ok"
-        elif op[0] == "start":
-            rep = h.run_started(rid(op[2]), engine=e)
-            kind = "not-registered" if isinstance(rep, AM.ErrorMessage) else "ok"
-        elif op[0] == "stop":
-            rep = h.run_stopped(rid(op[2]), engine=e)
-            kind = "not-registered" if isinstance(rep, AM.ErrorMessage) else "ok"
-        else:
-            raise ValueError(op)
+        try:
+            if op[0] == "register":
+                rep = h.register(e)
+                kind = "ok" if rep.success else "refused"
+            elif op[0] == "disconnect":
+                h.disconnect(e)
+                kind = "ok"
+            elif op[0] in ("start", "stop"):
+                rep = (h.run_started if op[0] == "start" else h.run_stopped)(rid(op[2]), engine=e)
+                kind = "not-registered" if isinstance(rep, AM.ErrorMessage) else "ok"
+            else:
+                raise ValueError(op)
+        except ValueError:
+            raise
+        except Exception as ex:          # the handler itself raised: that is the reply the engine gets
+            kind = f"raised:{type(ex).__name__}"
         pls, rrs = h.plot_log_rows(), h.recent_run_rows()
         engines = []
         for i in range(ENGINES):
@@ -282,8 +284,9 @@ def check_cases(ctx: Check, stream: str, cases: list[dict], selftest: bool) -> N
     if selftest and mout:
         ctx.selftest(stream, "RunRecords", cases, lambda c: lines_of(c, "asis\t"), mout)
     for c in cases:
-        for f in oracle(c, observations[id(c)]):
-            ctx.fail(f)
+        if id(c) in observations:
+            for f in oracle(c, observations[id(c)]):
+                ctx.fail(f)
 
 
 def run(ctx: Check) -> int:
